@@ -197,7 +197,7 @@ func main() {
 	}
 	var cases []*BuildCase
 	keys := []string{}
-	sw := newScopeWriter(*out, 180<<10)
+	sw := newScopeWriter(*out, 240<<10)
 	scopeRuns := 0
 	for pi, p := range progs {
 		src := filepath.Join(work, fmt.Sprintf("src%d", pi))
